@@ -71,19 +71,19 @@ Definition expected_inventory : list (string * string * string * string) := [
   ("panic", "scanner", "stepFuncStack.peek", """Reading from empty stack""");
   ("pkgvar", "catalog", "", "annotationReplacer : *regexp.Regexp");
   ("pkgvar", "catalog", "", "exampleMu : sync.Mutex");
-  ("pkgvar", "directive", "", "directiveAllowedToDirectiveContext : map[github.com/jsightapi/jsight-api-core/directive.Enumeration]map[github.com/jsightapi/jsight-api-core/directive.Enumeration]struct{}");
-  ("pkgvar", "directive", "", "ee : map[string]github.com/jsightapi/jsight-api-core/directive.Enumeration");
+  ("pkgvar", "directive", "", "directiveAllowedToDirectiveContext : map[directive.Enumeration]map[directive.Enumeration]struct{}");
+  ("pkgvar", "directive", "", "ee : map[string]directive.Enumeration");
   ("pkgvar", "directive", "", "eeOnce : sync.Once");
   ("pkgvar", "directive", "", "ss : []string");
   ("pkgvar", "kit", "", "openAPIMarshalMu : sync.Mutex");
-  ("pkgvar", "scanner", "", "anyType : github.com/jsightapi/jsight-schema-core/bytes.Bytes");
-  ("pkgvar", "scanner", "", "emptyTracer : github.com/jsightapi/jsight-api-core/scanner.emptyIncludeTracer");
-  ("pkgvar", "scanner", "", "emptyType : github.com/jsightapi/jsight-schema-core/bytes.Bytes");
-  ("pkgvar", "scanner", "", "lexemeEventTypeStringMap : map[github.com/jsightapi/jsight-api-core/scanner.LexemeEventType]string");
-  ("pkgvar", "scanner", "", "lexemeTypeStringMap : map[github.com/jsightapi/jsight-api-core/scanner.LexemeType]string");
-  ("pkgvar", "scanner", "", "regexType : github.com/jsightapi/jsight-schema-core/bytes.Bytes");
-  ("pkgvar-write", "directive", "NewDirectiveType", "ee inside-Once.Do");
-  ("pkgvar-write", "directive", "NewDirectiveType", "ee inside-Once.Do");
+  ("pkgvar", "scanner", "", "anyType : bytes.Bytes");
+  ("pkgvar", "scanner", "", "emptyTracer : scanner.emptyIncludeTracer");
+  ("pkgvar", "scanner", "", "emptyType : bytes.Bytes");
+  ("pkgvar", "scanner", "", "lexemeEventTypeStringMap : map[scanner.LexemeEventType]string");
+  ("pkgvar", "scanner", "", "lexemeTypeStringMap : map[scanner.LexemeType]string");
+  ("pkgvar", "scanner", "", "regexType : bytes.Bytes");
+  ("pkgvar-write", "directive", "NewDirectiveType", "inside-Once.Do ee : map[string]directive.Enumeration");
+  ("pkgvar-write", "directive", "NewDirectiveType", "inside-Once.Do ee : map[string]directive.Enumeration");
   ("recover", "catalog", "ObjectBuilder.Build", "");
   ("recover", "core", "pSchema.compilePathVariables", "");
   ("recover", "core", "pSchema.loadPathVariables", "");
@@ -154,21 +154,21 @@ Definition expected_keys : list (string * string * string) := [
   ("panic", "scanner", "");
   ("panic", "scanner", "");
   ("panic", "scanner", "");
-  ("pkgvar", "catalog", "annotationReplacer : *regexp.Regexp");
-  ("pkgvar", "catalog", "exampleMu : sync.Mutex");
-  ("pkgvar", "directive", "directiveAllowedToDirectiveContext : map[github.com/jsightapi/jsight-api-core/directive.Enumeration]map[github.com/jsightapi/jsight-api-core/directive.Enumeration]struct{}");
-  ("pkgvar", "directive", "ee : map[string]github.com/jsightapi/jsight-api-core/directive.Enumeration");
-  ("pkgvar", "directive", "eeOnce : sync.Once");
-  ("pkgvar", "directive", "ss : []string");
-  ("pkgvar", "kit", "openAPIMarshalMu : sync.Mutex");
-  ("pkgvar", "scanner", "anyType : github.com/jsightapi/jsight-schema-core/bytes.Bytes");
-  ("pkgvar", "scanner", "emptyTracer : github.com/jsightapi/jsight-api-core/scanner.emptyIncludeTracer");
-  ("pkgvar", "scanner", "emptyType : github.com/jsightapi/jsight-schema-core/bytes.Bytes");
-  ("pkgvar", "scanner", "lexemeEventTypeStringMap : map[github.com/jsightapi/jsight-api-core/scanner.LexemeEventType]string");
-  ("pkgvar", "scanner", "lexemeTypeStringMap : map[github.com/jsightapi/jsight-api-core/scanner.LexemeType]string");
-  ("pkgvar", "scanner", "regexType : github.com/jsightapi/jsight-schema-core/bytes.Bytes");
-  ("pkgvar-write", "directive", "ee inside-Once.Do");
-  ("pkgvar-write", "directive", "ee inside-Once.Do");
+  ("pkgvar", "catalog", "*regexp.Regexp");
+  ("pkgvar", "catalog", "sync.Mutex");
+  ("pkgvar", "directive", "map[directive.Enumeration]map[directive.Enumeration]struct{}");
+  ("pkgvar", "directive", "map[string]directive.Enumeration");
+  ("pkgvar", "directive", "sync.Once");
+  ("pkgvar", "directive", "[]string");
+  ("pkgvar", "kit", "sync.Mutex");
+  ("pkgvar", "scanner", "bytes.Bytes");
+  ("pkgvar", "scanner", "scanner.emptyIncludeTracer");
+  ("pkgvar", "scanner", "bytes.Bytes");
+  ("pkgvar", "scanner", "map[scanner.LexemeEventType]string");
+  ("pkgvar", "scanner", "map[scanner.LexemeType]string");
+  ("pkgvar", "scanner", "bytes.Bytes");
+  ("pkgvar-write", "directive", "inside-Once.Do map[string]directive.Enumeration");
+  ("pkgvar-write", "directive", "inside-Once.Do map[string]directive.Enumeration");
   ("recover", "catalog", "");
   ("recover", "core", "");
   ("recover", "core", "");
